@@ -816,6 +816,22 @@ def c15_extra(ctx, cases):
         viol.append(("the simple-format reader model differs from io::simple::read on %d documents, e.g. %s" % (len(dis), json.dumps(r["doc"])[:200]), rp, True))
     st["runs"] = st["docs"]
     cov["simple_reader"] = dict(st)
+    # rooms files (io::rooms::read) and --rooms strings against the model, binary on a sample / on all strings
+    goodfile = os.path.join(ctx.work, "faults", "good.json")
+    rrecs, srecs = simple.rooms_cases(ctx, ctx.seed + 16, 200 if ctx.tier == "quick" else 2000, vlib.build_cli(), goodfile,
+                                      bin_sample=40 if ctx.tier == "quick" else 300)
+    v3, dis3, st3 = simple.classify_rooms(rrecs, srecs)
+    brief2 = lambda r: {k: r.get(k) for k in ("what", "kind", "doc", "impl", "code", "bin", "file")}
+    for w, r in v3[:5]:
+        rp = ctx.replay({"kind": "failing-input", "stream": "rooms-reader", "what": w, "case": brief2(r)})
+        viol.append((w + " [" + json.dumps(r["doc"])[:200] + "]", rp, False))
+    if dis3 and not v3:
+        r = min(dis3, key=lambda x: len(json.dumps(x["doc"])))
+        rp = ctx.replay({"kind": "no-failing-input-found", "stream": "rooms-reader", "broken": "correspondence CorrSimple.check_rooms_file: the model "
+                         "SimpleRead.rooms_file_read and io::rooms::read differ on a rooms file", "first_disagreeing_case": brief2(r), "disagreements": len(dis3)})
+        viol.append(("the rooms-file reader model differs from io::rooms::read on %d files, e.g. %s" % (len(dis3), json.dumps(r["doc"])[:200]), rp, True))
+    st3["runs"] = st3["docs"]
+    cov["rooms_reader"] = dict(st3)
     ctx.extra_cov = cov
     return viol[:5], []
 
